@@ -2,8 +2,9 @@
 from checks import textcomp, rtcomp, rtxcomp, lybcomp
 
 LEAN_TARGETS = ["LyModel.Props.C01", "LyModel.Props.C01Lyb"]
-AUDIT = "Audit/C01.lean"
+AUDIT = ["Audit/C01.lean", "Audit/C01Fn.lean"]
 GENERATED = ["XmlEsc", "JsonEsc", "Consts", "LybConsts"]
+LEAN_TARGETS += ["LyModel.Props.C05Fn"]; GENERATED += ["FnUtf8"]     # functions translated from the C source (tools/c2lean.py), bridged in lean/LyModel/Bridge
 ASSUMPTIONS = ["theorems cover the value-text layer (escaping/lexing of every string); the tree walk, with-defaults filtering and LYB framing are "
                "exercised as laws on the implementation over generated schemas and trees (api_rt), see DESIGN.md §5 C01"]
 TRUSTED = ["Python renderers in tools/checks/rtcomp.py as the independent XML / RFC 7951 JSON encoder"]
@@ -18,6 +19,7 @@ def classify(component, what, case):
 
 
 def run(cx):
+    from checks import fncomp; fncomp.run_fn(cx, ['utf8'])
     textcomp.run_text(cx, want=("xml", "json"), law=("roundtrip",))
     rtcomp.run_rt(cx, laws=("roundtrip",))
     rtxcomp.run_rtx(cx, laws=("roundtrip",))
